@@ -388,10 +388,15 @@ def judge_form(cfg, truth, got, inp):
 # ------------------------------------------------------------------ units
 
 def tier_params(tier):
+    """Ls_D / Ls_P / Ls_F: the L values used at decoder / parser / form level.  L >= 48 is needed at the parser
+    level so that the ~45-byte header block fits under max_form_memory_size = L and the field-size checks are
+    reached at all."""
     if tier == "thorough":
-        return dict(Ls=(16, 32, 48, 64), short_bs=lambda L, n: sorted({1, 2, 7, L - 1, L, L + 1, n, n + 1}),
-                    form_dev=1, all_lengths=True)
-    return dict(Ls=(16, 32), short_bs=lambda L, n: sorted({1, 7, L, n + 1}), form_dev=1, all_lengths=False)
+        Ls = (16, 32, 48, 64)
+        return dict(Ls=Ls, Ls_D=Ls, Ls_P=Ls, Ls_F=Ls,
+                    short_bs=lambda L, n: sorted({1, 2, 7, L - 1, L, L + 1, n, n + 1}), form_dev=1, all_lengths=True)
+    return dict(Ls=(16, 32, 48), Ls_D=(16, 32), Ls_P=(16, 48), Ls_F=(16, 48),
+                short_bs=lambda L, n: sorted({1, 7, L, n + 1}), form_dev=1, all_lengths=False)
 
 
 def mfms_values(L, n, tier, tiny):
@@ -419,17 +424,20 @@ def units(tier):
             tiny = descr.startswith("tiny")
             if tiny and L != P["Ls"][0]:
                 continue                      # these bodies do not depend on L
-            for mfms in mfms_values(L, n, tier, tiny):
-                for max_parts in max_parts_values(np_, tier, tiny):
-                    if mfms is None and max_parts is None and tier != "thorough":
-                        continue
-                    us.append(("D", L, bi, mfms, max_parts))
-            for mfms in dict.fromkeys([None, 16, L, 10 * n]):
-                us.append(("P", L, bi, mfms))
-        nmb = len(form_bodies(L))
-        for fi in range(nmb):
-            for mcl_kind in ("none", "small", "exact", "large"):
-                us.append(("F", L, fi, mcl_kind))
+            if L in P["Ls_D"]:
+                for mfms in mfms_values(L, n, tier, tiny):
+                    for max_parts in max_parts_values(np_, tier, tiny):
+                        if mfms is None and max_parts is None and tier != "thorough":
+                            continue
+                        us.append(("D", L, bi, mfms, max_parts))
+            if L in P["Ls_P"]:
+                for mfms in dict.fromkeys([None, 16, L, 10 * n]):
+                    us.append(("P", L, bi, mfms))
+        if L in P["Ls_F"]:
+            nmb = len(form_bodies(L))
+            for fi in range(nmb):
+                for mcl_kind in ("none", "small", "exact", "large"):
+                    us.append(("F", L, fi, mcl_kind))
     return us
 
 
@@ -566,7 +574,7 @@ def finalize(R, tier):
     if R.counts["parser_runs"] < 5000 or R.counts["form_runs"] < 5000 or R.counts["graphs"] < 100:
         raise core.Broken("vacuity: a level barely ran")
     P = tier_params(tier)
-    return {"bound": f"L in {list(P['Ls'])}; bodies <= ~{max(P['Ls']) * 3 + 120} bytes; <= 5 parts; form level: "
+    return {"bound": f"L in {list(P['Ls_D'])} (decoder) / {list(P['Ls_P'])} (parser, form); bodies <= ~{max(P['Ls']) * 3 + 120} bytes; <= 5 parts; form level: "
                      f"deviation bound {P['form_dev']} (every single short read)",
             "deviation_bound": P["form_dev"],
             "exhaustive": True, "closed": True,
